@@ -372,8 +372,19 @@ def client_stage(c):
         except Exception:  # pylint: disable=broad-except
           continue
         dumped = sl.dump_space(ss)
-        study = clients.Study.from_study_config(study_config_of(ss), owner='o', study_id='c17_%s_%d_%d' % (bname, c.seed, si))
-        server_space = sl.dump_space(study.materialize_study_config().search_space)
+        made = _try(lambda: clients.Study.from_study_config(study_config_of(ss), owner='o', study_id='c17_%s_%d_%d' % (bname, c.seed, si)))
+        if made[0] != 'ok':
+          # building the space succeeded locally (sl.build_space), so the service must accept it or say why
+          c.prop_fail('valid-study-config-rejected', 'a study over a valid search space cannot be created through the client (%s): %s' % (bname, str(made[1])[:200]),
+                      {'backend': bname, 'space': dumped, 'error': str(made[1])[:400]})
+          continue
+        study = made[1]
+        got = _try(lambda: study.materialize_study_config().search_space)
+        if got[0] != 'ok':
+          c.prop_fail('stored-study-config-unreadable', 'the client cannot read back the study configuration it stored (%s): %s' % (bname, str(got[1])[:200]),
+                      {'backend': bname, 'space': dumped, 'error': str(got[1])[:400]})
+          continue
+        server_space = sl.dump_space(got[1])
         space_changed = _strip_defaults(server_space) != _strip_defaults(dumped)
         handles = []
         for _ in range(per):
